@@ -11,10 +11,11 @@
 verif_ev_t verif_ev[VERIF_NEV]; int verif_nev; int verif_fd_open; int verif_fail_mode;
 const char *verif_msg; size_t verif_msg_len; size_t verif_msg_idx; int verif_content_ok;
 size_t verif_stdio_cap; size_t verif_pending_stdout;
-typedef struct { int in_use, std, fd, append, failed; size_t pending, cap; } vstream_t;
+typedef struct { int in_use, std, fd, append, failed, nonblock; size_t pending, cap; } vstream_t;
 #define NS 5
 static vstream_t vs[NS];
 static int verif_sock_fd, verif_sock_nonblock, verif_sock_open, verif_nsend;
+static const void *verif_sigact_saved;
 
 static void ev(int kind, int fd, const void *p, size_t len, int flags, int ok){
   __CPROVER_assert(verif_nev < VERIF_NEV, "effect trace: fewer than 12 effects per call");
@@ -26,7 +27,8 @@ void verif_effects_init(const char *msg, size_t len, int fail_mode){
   verif_msg_idx = nondet_size_t(); __CPROVER_assume(len == 0 || verif_msg_idx < len);
   verif_stdio_cap = nondet_size_t(); __CPROVER_assume(verif_stdio_cap >= 1 && verif_stdio_cap <= 65536);   /* glibc: st_blksize, typically 4096 */
   verif_pending_stdout = 0; verif_sock_open = 0; verif_nsend = 0;
-  for (int i = 0; i < NS; i++) { vs[i].in_use = 0; vs[i].std = 0; vs[i].fd = 3 + i; vs[i].append = 0; vs[i].failed = 0; vs[i].pending = 0; vs[i].cap = verif_stdio_cap; }
+  verif_sigmask0 = nondet_ulong(); verif_sigmask = verif_sigmask0; verif_sig_disposition_changed = 0; verif_sigact_saved = 0;
+  for (int i = 0; i < NS; i++) { vs[i].in_use = 0; vs[i].std = 0; vs[i].fd = 3 + i; vs[i].append = 0; vs[i].nonblock = 0; vs[i].failed = 0; vs[i].pending = 0; vs[i].cap = verif_stdio_cap; }
   vs[0].in_use = 1; vs[0].std = 1; vs[0].fd = 1; vs[1].in_use = 1; vs[1].std = 2; vs[1].fd = 2; vs[1].cap = 0;   /* stderr unbuffered */
   stdout = (FILE *)&vs[0]; stderr = (FILE *)&vs[1];
 }
@@ -49,7 +51,7 @@ static void os_write(int fd, const char *p, size_t n, size_t rec_off){
 int verif_open3(const char *path, int flags, unsigned mode){
   (void)mode; (void)strlen(path);
   if (may_fail()) { errno = nondet_bool() ? EACCES : ENOSPC; ev(EV_OPEN, -1, path, 0, flags, 0); return -1; }
-  int fd = -1; for (int i = 2; i < NS; i++) if (!vs[i].in_use) { vs[i].in_use = 1; vs[i].std = 0; vs[i].append = (flags & O_APPEND) != 0; vs[i].failed = 0; vs[i].pending = 0; vs[i].cap = 0; fd = vs[i].fd; break; }
+  int fd = -1; for (int i = 2; i < NS; i++) if (!vs[i].in_use) { vs[i].in_use = 1; vs[i].std = 0; vs[i].append = (flags & O_APPEND) != 0; vs[i].nonblock = (flags & O_NONBLOCK) != 0; vs[i].failed = 0; vs[i].pending = 0; vs[i].cap = 0; fd = vs[i].fd; break; }
   __CPROVER_assert(fd != -1, "model: at most three files open at once");
   verif_fd_open++; ev(EV_OPEN, fd, path, 0, flags, 1);
   return fd;
@@ -61,6 +63,10 @@ ssize_t write(int fd, const void *buf, size_t n){
   vstream_t *s = F(fd);
   __CPROVER_assert(s != 0 || fd == 1 || fd == 2, "write: descriptor is open");
   if (may_fail()) { errno = ENOSPC; ev(EV_WRITE, fd, buf, n, 0, 0); return -1; }
+  if (s && s->nonblock && n > 1 && nondet_bool()) {       /* O_NONBLOCK descriptor on a pipe/tty with little room: the kernel takes only what fits */
+    size_t k = nondet_size_t(); __CPROVER_assume(k >= 1 && k < n);
+    os_write(fd, buf, k, 0); return (ssize_t)k;
+  }
   os_write(fd, buf, n, 0);
   return (ssize_t)n;
 }
@@ -78,7 +84,7 @@ FILE *fopen(const char *path, const char *mode){
   if (may_fail()) { errno = nondet_bool() ? ENOENT : EACCES; ev(EV_OPEN, -1, path, 0, 0, 0); return 0; }
   vstream_t *s = 0; for (int i = 2; i < NS; i++) if (!vs[i].in_use) { s = &vs[i]; break; }
   __CPROVER_assert(s != 0, "model: at most three files open at once");
-  s->in_use = 1; s->std = 0; s->failed = 0; s->pending = 0; s->cap = verif_stdio_cap; s->append = (mode[0] == 'a');
+  s->in_use = 1; s->std = 0; s->failed = 0; s->nonblock = 0; s->pending = 0; s->cap = verif_stdio_cap; s->append = (mode[0] == 'a');
   int fl = mode[0] == 'a' ? (O_WRONLY | O_CREAT | O_APPEND) : mode[0] == 'w' ? (O_WRONLY | O_CREAT | O_TRUNC) : O_RDONLY;
   if (mode[1] == '+' || (mode[1] && mode[2] == '+')) fl = (fl & ~(O_WRONLY | O_RDONLY)) | O_RDWR;
   verif_fd_open++; ev(EV_OPEN, s->fd, path, 0, fl, 1);
@@ -162,7 +168,7 @@ int socket(int dom, int type, int proto){
 int connect(int fd, const struct sockaddr *a, socklen_t l){
   __CPROVER_assert(verif_sock_open && fd == verif_sock_fd, "connect: on the open socket");
   __CPROVER_assert(l >= sizeof(sa_family_t) && l <= sizeof(struct sockaddr_un) && __CPROVER_r_ok(a, l), "connect: address length inside sockaddr_un");
-  if (may_fail()) { errno = nondet_bool() ? ENOENT : ECONNREFUSED; ev(EV_CONNECT, fd, a, l, 0, 0); return -1; }
+  if (may_fail()) { errno = nondet_int(); __CPROVER_assume(errno > 0 && errno < 134); ev(EV_CONNECT, fd, a, l, 0, 0); return -1; }   /* any errno: ENOENT, ECONNREFUSED, EPROTOTYPE (stream listener), EAGAIN ... */
   ev(EV_CONNECT, fd, a, l, 0, 1); return 0;
 }
 ssize_t send(int fd, const void *buf, size_t n, int flags){
@@ -177,6 +183,31 @@ ssize_t send(int fd, const void *buf, size_t n, int flags){
   return (ssize_t)n;
 }
 ssize_t sendto(int fd, const void *b, size_t n, int fl, const struct sockaddr *a, socklen_t l){ (void)a; (void)l; return send(fd, b, n, fl); }
+/* ---- signal mask and dispositions: ghost copy of the calling thread's blocked set (arbitrary at entry) ---- */
+#include <signal.h>
+unsigned long verif_sigmask, verif_sigmask0; int verif_sig_disposition_changed;
+int sigemptyset(sigset_t *s){ __CPROVER_assert(__CPROVER_w_ok(s, sizeof(*s)), "sigemptyset: set writable"); s->__val[0] = 0; return 0; }
+int sigfillset(sigset_t *s){ __CPROVER_assert(__CPROVER_w_ok(s, sizeof(*s)), "sigfillset: set writable"); s->__val[0] = ~0ul; return 0; }
+int sigaddset(sigset_t *s, int sig){ if (sig < 1 || sig > 64) { errno = EINVAL; return -1; } s->__val[0] |= 1ul << (sig - 1); return 0; }
+int sigdelset(sigset_t *s, int sig){ if (sig < 1 || sig > 64) { errno = EINVAL; return -1; } s->__val[0] &= ~(1ul << (sig - 1)); return 0; }
+int sigismember(const sigset_t *s, int sig){ if (sig < 1 || sig > 64) { errno = EINVAL; return -1; } return (s->__val[0] >> (sig - 1)) & 1; }
+static int verif_setmask(int how, const sigset_t *set, sigset_t *old){
+  if (old) { __CPROVER_assert(__CPROVER_w_ok(old, sizeof(*old)), "sigmask: old set writable"); old->__val[0] = verif_sigmask; }
+  if (set) { unsigned long m = set->__val[0];
+    if (how == SIG_BLOCK) verif_sigmask |= m; else if (how == SIG_UNBLOCK) verif_sigmask &= ~m; else if (how == SIG_SETMASK) verif_sigmask = m; else return EINVAL; }
+  return 0;
+}
+int pthread_sigmask(int how, const sigset_t *set, sigset_t *old){ return verif_setmask(how, set, old); }
+int sigprocmask(int how, const sigset_t *set, sigset_t *old){ int r = verif_setmask(how, set, old); if (r) { errno = r; return -1; } return 0; }
+int sigpending(sigset_t *s){ s->__val[0] = nondet_ulong(); return 0; }
+int sigtimedwait(const sigset_t *s, siginfo_t *info, const struct timespec *to){ (void)s; (void)info; (void)to; if (nondet_bool()) { errno = EAGAIN; return -1; } return SIGPIPE; }
+int sigaction(int sig, const struct sigaction *act, struct sigaction *old){
+  (void)sig;
+  if (old) { __CPROVER_havoc_object(old); verif_sigact_saved = old; }
+  if (act) verif_sig_disposition_changed = (act != verif_sigact_saved);     /* putting back exactly what was saved restores the caller's disposition */
+  return 0;
+}
+__sighandler_t signal(int sig, __sighandler_t h){ (void)sig; (void)h; verif_sig_disposition_changed = 1; return SIG_DFL; }
 /* ---- must never be reached on the logging path ---- */
 #define NEVER(name, proto, ret) proto { __CPROVER_assert(0, name ": must not be called on the logging path (would alter or end the calling process)"); ret; }
 NEVER("exit", void exit(int s), (void)s; __CPROVER_assume(0))
